@@ -22,6 +22,10 @@ unique names; every atom carries its ground truth:
   virt      a derived class re-declaring an inherited virtual: base declaration section x
             derived section x 8 inheritance shapes x const/mismatch x pure; the method must
             be recorded for the class or for a base the database lists for it
+  member    one data member x type {int, const int, int*, const int*, int* const, enum,
+            struct, struct*, const struct, array, reference} x typedef depth 0..3 x
+            static/non-static x with/without initializer; getter/setter roles against
+            std::is_assignable evaluated by g++
   comment   target declaration of 15 kinds x comment style {none, //, ///, /* */, /** */,
             multi-line //} x {0,1,2} blank lines x trailing comment on the previous
             declaration's line {none, //, /* */} x preprocessor line in between
@@ -444,6 +448,37 @@ def reachable(o, cls, fname):
     return False
 
 
+def check_member(c, o, d):
+    e = o.el.get(d["scoped"])
+    if e is None:
+        c.ok("element %s" % d["scoped"], False, "not in the database")
+        return
+    w = "data member %s" % d["scoped"]
+    fl = e["flags"]
+    g = o.F.get(str(e["getter"])) if fl & E_GETTER else None
+    c.ok(w, g is not None and g["scoped_name"] == d["getter"] and bool(g["flags"] & ROLE_BITS["getter"]),
+         "has no getter function flagged as getter")
+    st = o.F.get(str(e["setter"])) if fl & E_SETTER else None
+    c.ok(w, bool(fl & E_SETTER) == (e["setter"] != 0) and (st is None) == (e["setter"] == 0),
+         "setter flag and setter function disagree")
+    if st is not None:
+        c.ok(w, st["scoped_name"] == d["setter"] and bool(st["flags"] & ROLE_BITS["setter"]),
+             "setter function %r is not flagged as setter" % st["scoped_name"])
+        # a recorded setter must be truthful: g++ says whether the member can be assigned
+        c.ok(w, d["assignable"], "records setter %s although g++ says the member is not assignable"
+             % st["scoped_name"])
+    if d["rule"] == "no":
+        c.ok(w, st is None, "is const: no setter may be recorded")
+        c.ok(w, not o.fn.get(d["setter"]), "is const: function %s must not exist" % d["setter"])
+    elif d["rule"] == "yes":
+        c.ok(w, st is not None, "is an assignable scalar/pointer member: a setter is expected")
+    if g is not None and o.backend == "c":
+        ws = o.wrappers_of(g)
+        # (a pointer to a simple type cannot be wrapped: such getters have no wrapper)
+        c.ok(w + " getter", all((len(x[0]) == 0) == d["static"] for x in ws),
+             "static-ness of the getter wrapper: %r" % (ws,))
+
+
 def judge(atom, o, cidx, same_ptr):
     c = Cmp()
     if isinstance(atom, hg.InhAtom):
@@ -451,6 +486,11 @@ def judge(atom, o, cidx, same_ptr):
             tr = atom.truth(same_ptr)
         except KeyError as e:
             raise HarnessError("g++ probe has no answer for %s" % (e,))
+    elif isinstance(atom, hg.MemberAtom):
+        try:
+            tr = atom.truth(same_ptr)
+        except KeyError as e:
+            raise HarnessError("g++ probe has no answer for member atom %s" % (e,))
     else:
         tr = atom.truth()
     for f in tr.get("functions", ()):
@@ -465,6 +505,8 @@ def judge(atom, o, cidx, same_ptr):
         check_element(c, o, d)
     for d in tr.get("seqs", ()):
         check_seq(c, o, d)
+    if "member" in tr:
+        check_member(c, o, tr["member"])
     if "comment_allowed" in tr:
         check_comments(c, o, tr, cidx)
     for f in tr.get("optional_functions", ()):
@@ -502,6 +544,7 @@ def make_atoms(tier):
     fam["op"] = [hg.OpAtom(pfx("o"), f, s) for f, s in hg.op_space(tier)]
     fam["comment"] = [hg.CommentAtom(pfx("k"), *x) for x in hg.comment_space(tier)]
     fam["virt"] = [hg.VirtAtom(pfx("v"), *x) for x in hg.virt_space(tier)]
+    fam["member"] = [hg.MemberAtom(pfx("d"), *x) for x in hg.member_space(tier)]
     return fam
 
 
@@ -509,27 +552,36 @@ def render(atoms):
     return hg.PRELUDE + "".join(a.render() for a in atoms)
 
 
-def gxx_probe(b, atoms, rundir):
-    """objective layout facts for the inheritance atoms: (derived, base) -> same address"""
-    inh = [a for a in atoms if isinstance(a, hg.InhAtom)]
-    if not inh:
-        return {}
-    src = os.path.join(rundir, "probe.cxx")
+def _compile_run(src_text, name, rundir):
+    src = os.path.join(rundir, name + ".cxx")
     with open(src, "w") as f:
-        f.write(hg.inh_probe_source(inh, "h.h"))
-    exe = os.path.join(rundir, "probe")
+        f.write(src_text)
+    exe = os.path.join(rundir, name)
     r = tools.run(["g++", "-std=c++17", "-w", "-O0"] + tools.PUBLISH_DEFS +
                   ["-I", rundir, "-o", exe, src], cwd=rundir, timeout=600,
                   env=dict(os.environ, LC_ALL="C"))
     if r.rc != 0:
-        raise HarnessError("g++ rejects the inheritance atoms (generator broken): %s" % r.err[-1500:])
+        raise HarnessError("g++ rejects the generated atoms (generator broken): %s" % r.err[-1500:])
     r = tools.run([exe], cwd=rundir, timeout=60, env={"LC_ALL": "C"})
     if r.rc != 0:
-        raise HarnessError("layout probe failed: %s" % r.brief())
+        raise HarnessError("g++ probe failed: %s" % r.brief())
+    return r.out
+
+
+def gxx_probe(b, atoms, rundir):
+    """objective facts from the compiler: (derived, base) -> base sub-object at the same
+    address; member atom prefix -> the data member is assignable"""
     out = {}
-    for line in r.out.splitlines():
-        d, bname, v = line.split()
-        out[(d, bname)] = v == "1"
+    inh = [a for a in atoms if isinstance(a, hg.InhAtom)]
+    if inh:
+        for line in _compile_run(hg.inh_probe_source(inh, "h.h"), "probe_inh", rundir).splitlines():
+            d, bname, v = line.split()
+            out[(d, bname)] = v == "1"
+    mem = [a for a in atoms if isinstance(a, hg.MemberAtom)]
+    if mem:
+        for line in _compile_run(hg.member_probe_source(mem, "h.h"), "probe_mem", rundir).splitlines():
+            pfx, v = line.split()
+            out[pfx] = v == "1"
     return out
 
 
@@ -565,7 +617,7 @@ def main():
         n = size.get(name, 150)
         for i in range(0, len(atoms), n):
             batches.append((name, i // n, "c", atoms[i:i + n]))
-    for name in ("sig", "op", "inh", "prop", "virt"):
+    for name in ("sig", "op", "inh", "prop", "virt", "member"):
         atoms = fam.get(name, [])
         n = size.get(name, 150)
         sub = atoms if ck.tier == "thorough" or name != "sig" else atoms[::2]
